@@ -4,6 +4,7 @@ import (
 	"fmt"
 	"go/ast"
 	"go/types"
+	"os"
 	"sort"
 	"strings"
 
@@ -126,6 +127,20 @@ func runC17(c *engine.Ctx, tier string) {
 		leafWritten(c, "C17.5/"+v.id, v.tree)
 		leafListWidth(c, "C17.2d/"+v.id, v.tree)
 	}
+	// what is readable afterwards is what was set only if the store rewrites an entry whenever a later
+	// transaction touched it: sign, width and element lengths live in TypeOpts, not in the value bytes
+	persistTable(c, "C17.7", pkgStoreCfgV2)
+	// one attribute for a whole leaf-list must not be the last element's
+	lwPkgs := []string{pkgValuesV2, pkgValuesV3}
+	if os.Getenv("OCC_LASTWINS_ALL") != "" { // survey mode: every package of the module
+		lwPkgs = nil
+		for _, pkg := range c.P.Pkgs {
+			if rel := strings.TrimPrefix(pkg.PkgPath, engine.ModulePath+"/"); strings.HasPrefix(rel, "pkg/") {
+				lwPkgs = append(lwPkgs, rel)
+			}
+		}
+	}
+	lastWins(c, "C17.8", lwPkgs, 2)
 	o := c.Custom("C17.2c", "K-args", "every BuildTree call outside the tree packages renders with RFC 7951 on (second argument the constant true)",
 		"Get in JSON encoding, the OPA input and the document given to the model plugin all follow RFC 7951: 64-bit integers and decimals are strings; the non-RFC path goes through float64 and loses digits")
 	for _, cs := range c.P.CallSites() {
